@@ -154,9 +154,15 @@ def gen_lib(r, name=None, language=None, nfunc=None, wrap=None, options=None):
         decls.append(gen_enum(r, "Color" + str(r.randrange(9)), scoped=(language != "c" and r.random() < 0.3)))
     if language != "c" and r.random() < 0.6:
         decls.append(gen_class(r, "Cls" + str(r.randrange(9))))
-    if language != "c" and r.random() < 0.3:
-        decls.append({"decl": "namespace ns%d" % r.randrange(9),
-                      "declarations": [gen_function(r, language, "inner%d" % i) for i in range(r.randrange(1, 3))]})
+    if language != "c" and r.random() < 0.35:
+        inner = [gen_function(r, language, "inner%d" % i) for i in range(r.randrange(1, 3))]
+        if r.random() < 0.5:
+            # nested namespaces, two or three levels deep
+            deep = [gen_function(r, language, "deep%d" % i) for i in range(r.randrange(1, 3))]
+            if r.random() < 0.4:
+                deep = [{"decl": "namespace lvl3", "declarations": deep}]
+            inner.append({"decl": "namespace lvl2", "declarations": deep})
+        decls.append({"decl": "namespace ns%d" % r.randrange(9), "declarations": inner})
     opts = {"wrap_python": False, "wrap_lua": False}
     if wrap:
         opts.update(wrap)
